@@ -12,7 +12,7 @@ package centrifuge
 //   X  Client.close(DisconnectForceNoReconnect)            (server-initiated disconnect)
 //   E  the transport handler's close function                (transport close)
 //   T  two presence ticks (Client.updatePresence, what the presence timer runs)
-//   U  Client.Unsubscribe of the server-side subscription s1 (or of c1)
+//   U  Node.Unsubscribe of the server-side subscription s1 (or of c1); V: six of them at once
 //   S  Node.Shutdown
 //   N  a second connection on the same node sending its connect command
 // A schedule is a list of labels executed strictly in order: `s:<actor>` starts an actor,
@@ -77,6 +77,21 @@ func (t *verifC08Transport) Close(Disconnect) error {
 	return nil
 }
 
+// verifC08Broker gates PublishJoin: connectCmd publishes the join of a connect-time server-side
+// subscription after its last `status == closed` check and before triggerConnect, so a goroutine
+// parked here is "between connectCmd and triggerConnect".
+type verifC08Broker struct {
+	*MemoryBroker
+	s *verifC08Scn
+}
+
+func (b *verifC08Broker) PublishJoin(ch string, info *ClientInfo) error {
+	if ch == "s1" {
+		b.s.gate("join", "join")
+	}
+	return b.MemoryBroker.PublishJoin(ch, info)
+}
+
 type verifC08Scn struct {
 	mu       sync.Mutex
 	log      []string
@@ -93,6 +108,7 @@ type verifC08Scn struct {
 	ss       bool
 	pres     bool
 	cprog    string
+	jl       bool
 	wg       sync.WaitGroup
 	ended    map[string]chan struct{}
 }
@@ -123,18 +139,19 @@ func (s *verifC08Scn) gate(name, label string) {
 
 func (s *verifC08Scn) setup(kv map[string]string) {
 	s.gates = map[string]chan struct{}{}
-	for _, g := range []string{"cing", "conn", "alive", "disc", "unsub"} {
+	for _, g := range []string{"cing", "conn", "alive", "disc", "unsub", "join"} {
 		s.gates[g] = make(chan struct{})
 	}
 	s.arrivals = make(chan string, 64)
 	s.ended = map[string]chan struct{}{}
-	for _, a := range []string{"C", "X", "E", "T", "U", "S", "N"} {
+	for _, a := range []string{"C", "X", "E", "T", "U", "S", "N", "V"} {
 		s.ended[a] = make(chan struct{})
 	}
 	s.free = make(chan struct{})
 	s.ss = kv["ss"] == "1"
 	s.pres = kv["pres"] == "1"
 	s.cprog = kv["cprog"]
+	s.jl = kv["jl"] == "1"
 	node, err := New(Config{LogLevel: LogLevelNone, ClientStaleCloseDelay: 240 * time.Hour,
 		ClientPresenceUpdateInterval: 240 * time.Hour})
 	if err != nil {
@@ -157,7 +174,7 @@ func (s *verifC08Scn) setup(kv map[string]string) {
 			return rep, nil
 		}
 		if s.ss {
-			rep.Subscriptions = map[string]SubscribeOptions{"s1": {EmitPresence: s.pres}}
+			rep.Subscriptions = map[string]SubscribeOptions{"s1": {EmitPresence: s.pres, EmitJoinLeave: s.jl}}
 		}
 		s.gate("cing", "connecting")
 		return rep, nil
@@ -179,6 +196,13 @@ func (s *verifC08Scn) setup(kv map[string]string) {
 		c.OnUnsubscribe(func(e UnsubscribeEvent) { s.gate("unsub", "unsub:"+e.Channel) })
 		s.gate("conn", "connect")
 	})
+	if s.jl {
+		mb, err := NewMemoryBroker(node, MemoryBrokerConfig{})
+		if err != nil {
+			panic(err)
+		}
+		node.SetBroker(&verifC08Broker{MemoryBroker: mb, s: s})
+	}
 	if err := node.Run(); err != nil {
 		panic(err)
 	}
@@ -261,6 +285,25 @@ func (s *verifC08Scn) actor(name string, after *atomic.Value) {
 		}
 		// through the node API: only clients registered in the hub are reachable by an application
 		_ = s.node.Unsubscribe("u", ch)
+	case "V":
+		// several server-side unsubscribes of one channel released together (stress on the
+		// removedNow ownership: only one of them may run the callback)
+		ch := "c1"
+		if s.ss {
+			ch = "s1"
+		}
+		var vg sync.WaitGroup
+		barrier := make(chan struct{})
+		for i := 0; i < 6; i++ {
+			vg.Add(1)
+			go func() {
+				defer vg.Done()
+				<-barrier
+				_ = s.node.Unsubscribe("u", ch)
+			}()
+		}
+		close(barrier)
+		vg.Wait()
 	case "S":
 		_ = s.node.Shutdown(context.Background())
 		s.mu.Lock()
